@@ -93,15 +93,18 @@ pub fn run_case(sink: &mut Sink, header: &str, cfg: engine::Cfg, mut next: impl 
     let mut step = 0;
     while let Some(ev) = next(&mut engine, &snapshot, step) {
         let (oracle, out) = engine.exec(&ev);
+        if engine.hung || out.starts_with("hang") {
+            // a thread is stuck (possibly holding a lock): do not touch the cache again, not even for a snapshot
+            writeln!(sink.input, "E {}{}{}", ev.line(), oracle, ev.variant_note()).unwrap();
+            writeln!(sink.implementation, "R {} |", out).unwrap();
+            sink.both(&format!("# hang {}", out.replace(' ', "_")));
+            sink.flush();
+            std::process::exit(3);
+        }
         snapshot = engine.snapshot();
         writeln!(sink.input, "E {}{}{}", ev.line(), oracle, ev.variant_note()).unwrap();
         writeln!(sink.implementation, "R {} | {}", out, snapshot.text).unwrap();
         step += 1;
-        if engine.hung || out.starts_with("hang") {
-            sink.both("# hang");
-            sink.flush();
-            return false;
-        }
     }
     let panics: Vec<String> = std::mem::take(&mut *PANIC_LOG.lock().unwrap());
     for panic in panics { sink.both(&format!("# panic {}", panic)); }
